@@ -26,7 +26,7 @@ ABSENT = _Absent()
 
 DOM = {
     "type": [ABSENT, "direct-tcp-v1", "tor-tcp-v1", "relay-v1", "bogus-v9", 5, ["direct-tcp-v1"], {"t": 1}],
-    "hostname": [ABSENT, "host.example", 5, None],
+    "hostname": [ABSENT, "host.example", 5, None, "a..b"],
     "port": [ABSENT, 1234, -1, True, "80", None],
     "priority": [ABSENT, 0.0, 3, "high", None, [1], {"p": 1}],
 }
@@ -138,12 +138,34 @@ class LogRec:
         self.m.append(("err",) + a)
 
 
+_BADHOST = {}
+
+
+def bad_hostname(h):
+    """what Twisted's HostnameEndpoint decides: a name that cannot be IDNA-encoded makes connect() return an ALREADY FAILED Deferred"""
+    if not isinstance(h, str):
+        return False
+    if h not in _BADHOST:
+        import warnings
+        from twisted.internet.endpoints import HostnameEndpoint as _HE
+        with warnings.catch_warnings():
+            warnings.simplefilter("ignore")
+            _BADHOST[h] = bool(getattr(_HE(Clock(), h, 80), "_badHostname", False))
+    return _BADHOST[h]
+
+
 class EP:
     def __init__(self, kind, reactor, host, port, *a, **kw):
         self.kind, self.host, self.port = kind, host, port
+        self.d = None
 
     def connect(self, f):
-        return defer.Deferred()
+        h = self.host.get() if isinstance(self.host, SymEnum) else self.host
+        if self.kind == "host" and bad_hostname(h):
+            self.d = defer.fail(ValueError("invalid hostname: %s" % (h,)))
+        else:
+            self.d = defer.Deferred()
+        return self.d
 
 
 def ep_class(kind, rec):
@@ -254,7 +276,8 @@ def fresh_hint_list(n, relay_ok=True, honest=False):
     for i in range(n):
         shape = eng().choose(2, "hint%d_shape" % i)
         if shape == 0:
-            hints.append(SymHintDict("hint%d" % i, False, fixed=dict(type="direct-tcp-v1", hostname="other%d.example" % i, port=4000 + i,
+            hints.append(SymHintDict("hint%d" % i, False, fixed=dict(type="direct-tcp-v1", port=4000 + i,
+                                                                   hostname=("other%d.example" % i) if (honest or i) else fresh_enum("hint0.hostname", ["other0.example", "a..b"]),
                                                                    priority=fresh_enum("hint%d.priority" % i, prio))))
         else:
             h = SymHintDict("hint%d" % i, False, fixed=dict(type="relay-v1", hostname=ABSENT, port=ABSENT, priority=ABSENT))
@@ -314,7 +337,11 @@ class TransitHints(Job):
                 except Exception as e:
                     core.check_leak(e)
                     err = ("connect", type(e).__name__, str(e)[:100])
-                if err is None and res and res[0] not in ("ok", "TransitError", "CancelledError"):
+                pending = [e for e in rec if e.d is not None and not e.d.called]
+                if err is None and res and pending:
+                    # a junk hint must not abort the attempt: connect() may only give up once no dialled attempt is left
+                    err = ("connect", res[0], "connect() finished (%s) although %d dialled attempt(s) were still pending" % (res[0], len(pending)))
+                if err is None and res and res[0] not in ("ok", "TransitError", "CancelledError", "ValueError"):
                     err = ("connect", res[0], "connect() failed with an unexpected error")
         return rec, err
 
